@@ -902,7 +902,7 @@ func c11Suggest(p *Prog, r *Report) {
 		r.Fail("D1-level-guard", site+":sink", p.Pos(fn.Pos()), "suggestMavenVersion never writes a chosen version into the requirement")
 		return
 	}
-	ncand := 0
+	ncand, nrange := 0, 0
 	for _, l := range phiLeaves(chosen, sinkB) {
 		if isNilConst(l.val) {
 			continue
@@ -943,6 +943,52 @@ func c11Suggest(p *Prog, r *Report) {
 				if !wit {
 					okB = false
 				}
+				// round 9: of the versions matching the range the *greatest* is the base: the element
+				// replaces the running base only via the true edge of base.Compare(v) < 0 (or
+				// v.Compare(base) > 0). With the operands swapped the least match becomes the base and
+				// the not-below-base and level guards are measured from a version below the resolved one.
+				running := func(x ssa.Value) bool {
+					ph, ok := x.(*ssa.Phi)
+					if !ok {
+						return false
+					}
+					for _, pl := range phiLeaves(ph, ph.Block()) {
+						if sameCell(pl.val, bl.val) {
+							return true
+						}
+					}
+					return false
+				}
+				greater, _ := guardEdges(fn, func(cond ssa.Value) (bool, bool) {
+					bo, ok := cond.(*ssa.BinOp)
+					if !ok || (bo.Op != token.LSS && bo.Op != token.GTR) {
+						return false, false
+					}
+					if n, isC := constInt(bo.Y); !isC || n != 0 {
+						return false, false
+					}
+					c, ok := bo.X.(*ssa.Call)
+					if !ok || len(c.Call.Args) < 2 {
+						return false, false
+					}
+					if nm := refOf(c.Common()).Name; nm != "Compare" && nm != "CompareVersions" {
+						return false, false
+					}
+					x, y := c.Call.Args[len(c.Call.Args)-2], c.Call.Args[len(c.Call.Args)-1]
+					if bo.Op == token.LSS && running(x) && sameCell(y, bl.val) {
+						return true, true
+					}
+					if bo.Op == token.GTR && running(y) && sameCell(x, bl.val) {
+						return true, true
+					}
+					return false, false
+				})
+				nrange++
+				okMax := false
+				if def := defBlock(bl.val); def != nil && len(greater) > 0 && bl.blk != nil {
+					okMax = !reachable(def, edgesOf(greater), nil)[bl.blk]
+				}
+				r.Check(okMax, "D3-right-base", site+":greatest-match", p.Pos(lc.diff.Pos()), "a matching version replaces the guessed base only when it is greater than it", "the base guessed for a range requirement is no longer the greatest available version matching the range (a match can replace the running base without base.Compare(v) < 0 having held): for a range with a hole the level and not-below-current guards are measured from a version below the one the range resolves to, and the range is replaced by a lower pinned version — a downgrade")
 			}
 			r.Check(okB, "D3-right-base", site+":base", p.Pos(lc.diff.Pos()), "base is the parsed requirement or a version matching the range requirement", "suggestMavenVersion measures the level from something other than the current requirement's version")
 			// candidate not below base: commit only via the false edge of CompareVersions(_, cand, base) < 0
@@ -972,6 +1018,7 @@ func c11Suggest(p *Prog, r *Report) {
 		r.Check(ok1, "D1-level-guard", site+":candidate", p.Pos(l.val.Pos()), "chosen only after Allows(diff(candidate, current)) held", "a version can become the suggested requirement without Level.Allows having held for its difference to the current version")
 	}
 	r.Instances("D1-level-guard", "suggestMavenVersion candidates", ncand, 1)
+	r.Instances("D3-right-base", "range-requirement base guesses in suggestMavenVersion", nrange, 1)
 
 	// Suggest: level = opts.UpgradeConfig.Get(req.Name) for the same req; VersionTo = latest.Version
 	sg := p.Func("guidedremediation/internal/suggest", "MavenSuggester.Suggest")
